@@ -520,7 +520,18 @@ func (l *Lexer) shiftEndTag() []byte {
 		break
 	}
 	l.text = l.text[:end]
-	return parse.ToLower(l.r.Shift())
+
+	// only the tag name is case-insensitive, what may follow it in a (malformed) end tag is left as it is
+	b := l.r.Shift()
+	n := 2
+	for n < len(b) {
+		if c := b[n]; c == ' ' || c == '\t' || c == '\n' || c == '\r' || c == '\f' || c == '/' || c == '>' {
+			break
+		}
+		n++
+	}
+	parse.ToLower(b[:n])
+	return b
 }
 
 // shiftXML parses the content of a svg or math tag according to the XML 1.1 specifications, including the tag itself.
